@@ -97,6 +97,25 @@ def createFailureLinksFixed (fuel : Nat) (root : Trie) : AllocM Res := fun h =>
     | ((.ok, q'), h2) => (.ok, (freeAll (q'.map (·.1)) h2).2)
     | ((.insufficientMemory, q'), h2) => (.insufficientMemory, (freeAll (q'.map (·.1)) h2).2)
 
+/-- `_yr_ac_build_transition_table`: the same queue discipline, but between the pop and the pushes every state
+    also calls `_yr_ac_find_suitable_transition_table_slot`, which may grow the tables (one allocation, owned by the
+    automaton and released by `yr_ac_automaton_destroy`). `clearOnSlotFail = false` is the code before
+    notes/C16-15-ahocorasick-transition-table.diff (`FAIL_ON_ERROR(slot…)` returns with the queue populated),
+    `true` the patched code (`FAIL_ON_ERROR_WITH_CLEANUP(slot…, _yr_ac_queue_clear(&queue))`); failed pushes clear
+    the queue in both (fix 19c266d). Returns the outcome and the blocks now owned by the automaton. -/
+def buildTable (clearOnSlotFail : Bool) : Nat → Queue → List Nat → AllocM (Res × List Nat)
+  | 0, q, owned => fun h => ((.ok, owned), (freeAll (q.map (·.1)) h).2)
+  | _ + 1, [], owned => fun h => ((.ok, owned), h)
+  | n + 1, (b, t) :: q, owned => fun h =>
+    let h1 := (free b h).2
+    match alloc fail h1 with
+    | (none, h2) =>
+      ((.insufficientMemory, owned), if clearOnSlotFail then (freeAll (q.map (·.1)) h2).2 else h2)
+    | (some a, h2) =>
+      match pushAll fail t.children q h2 with
+      | ((.ok, q'), h3) => buildTable clearOnSlotFail n q' (a :: owned) h3
+      | ((.insufficientMemory, q'), h3) => ((.insufficientMemory, a :: owned), (freeAll (q'.map (·.1)) h3).2)
+
 def Trie.size : Trie → Nat
   | .node cs => 1 + sizeList cs
 where sizeList : List Trie → Nat
